@@ -7,3 +7,6 @@ import ThunderProofs.Properties.C07
 #print axioms TM.Properties.C07.repaired_invalidates_on_undecodable
 #print axioms TM.Properties.C07.read_before_register_misses_write
 #print axioms TM.Properties.C07.read_requires_registration
+#print axioms TM.Properties.C07.schema_change_decodes_right
+#print axioms TM.Properties.C07.no_flush_decodes_garbage
+#print axioms TM.Properties.C07.wrong_width_is_error
